@@ -134,6 +134,62 @@ func restKeys(t reflect.Type, over map[reflect.Type]*jsonschema.Schema, full []s
 	return out
 }
 
+// overrideKeys: the other half of "every TypeSchemas entry is substituted wherever its type occurs", for entries of EMBEDDED field
+// types (exact type of an anonymous field reflect.VisibleFields lists). missing: property names of such an entry that the result
+// does not list; leaked: JSON names of fields promoted through an overridden embedded field that the result lists although neither
+// the entry nor a field outside the overridden type declares them.
+func overrideKeys(t reflect.Type, over map[reflect.Type]*jsonschema.Schema, s *jsonschema.Schema) (missing, leaked []string) {
+	missing, leaked = []string{}, []string{}
+	keep, under, ov := map[string]bool{}, map[string]bool{}, map[string]bool{}
+	for _, f := range reflect.VisibleFields(t) {
+		if f.Anonymous {
+			if o := over[f.Type]; o != nil {
+				for k := range o.Properties {
+					ov[k] = true
+				}
+			}
+			continue
+		}
+		if !f.IsExported() {
+			continue
+		}
+		name := f.Name
+		if tag, ok := f.Tag.Lookup("json"); ok {
+			if tag == "-" {
+				continue
+			}
+			tn, _, _ := strings.Cut(tag, ",")
+			if tn != "" {
+				name = tn
+			}
+		}
+		isUnder := false
+		for n := 1; n < len(f.Index); n++ {
+			if af := t.FieldByIndex(f.Index[:n]); af.Anonymous && over[af.Type] != nil {
+				isUnder = true
+			}
+		}
+		if isUnder {
+			under[name] = true
+		} else {
+			keep[name] = true
+		}
+	}
+	for k := range ov {
+		if s.Properties[k] == nil {
+			missing = append(missing, k)
+		}
+	}
+	for k := range under {
+		if !keep[k] && !ov[k] && s.Properties[k] != nil {
+			leaked = append(leaked, k)
+		}
+	}
+	sort.Strings(missing)
+	sort.Strings(leaked)
+	return missing, leaked
+}
+
 func (a *inferArgs) forOptions() (*jsonschema.ForOptions, error) {
 	o := &jsonschema.ForOptions{IgnoreInvalidTypes: a.Opts.Ignore}
 	for _, ts := range a.Opts.TypeSchemas {
@@ -298,6 +354,7 @@ func init() {
 					res["full_keys"] = objectKeys(fb)
 				} else if opts.TypeSchemas[tt] == nil {
 					res["rest_keys"] = restKeys(tt, opts.TypeSchemas, objectKeys(fb))
+					res["override_missing"], res["override_leaked"] = overrideKeys(tt, opts.TypeSchemas, s1)
 				}
 				res["zero_keys"] = objectKeys(zb)
 				// fields that encoding/json can never emit: omitempty on a zero-length array type (always "empty")
@@ -471,8 +528,8 @@ func fillNonZero(v reflect.Value) {
 	switch v.Kind() {
 	case reflect.Struct:
 		for i := 0; i < v.NumField(); i++ {
-			if v.Field(i).CanSet() {
-				fillNonZero(v.Field(i))
+			if fv := settable(v.Field(i), v.Type().Field(i)); fv.CanSet() {
+				fillNonZero(fv)
 			}
 		}
 	case reflect.Bool:
